@@ -189,6 +189,8 @@ def check_case(case) -> Outcome:
     out.nontrivial = used and kind != "none"
     feat = dict(mutation=kind, output=output, efr=efr, role=",".join(sorted(roles)))
     dff = F.build(fol)
+    if case.get("derived") and not lhs_col and not case.get("subset") and not case.get("rename"):
+        return derived_spec(out, case, spec, s, df, dff, fc, fol, tr_levels, roles, feat)
     with warnings.catch_warnings(record=True) as w:
         warnings.simplefilter("always")
         try:
@@ -280,6 +282,62 @@ def check_case(case) -> Outcome:
     return out
 
 
+def derived_spec(out, case, spec, s, df, dff, fc, fol, tr_levels, roles, feat):
+    """The gradient of a fitted spec (`spec.differentiate('x')`) is still a recorded spec: on follow-up data it keeps the
+    columns it has on the training data, announces unseen levels and refuses a column whose kind changed (values of
+    derivatives are C20's business: not compared here)."""
+    from formulaic.errors import DataMismatchWarning, FormulaicError
+
+    mut = case["mutation"]
+    kind, col = mut["kind"], mut["col"]
+    try:
+        dspec = spec.differentiate("x")
+        ref = dspec.get_model_matrix(df, context={})
+        names = list(ref.model_spec.column_names)
+        required = set(dspec.formula.required_variables)
+    except Exception:
+        out.label("excluded:not-differentiable")
+        out.nontrivial = False
+        return out
+    out.label("derived:differentiate")
+    feat = dict(feat, derived="differentiate")
+    still_used = col in required
+    out.nontrivial = out.nontrivial and still_used
+    with warnings.catch_warnings(record=True) as w:
+        warnings.simplefilter("always")
+        try:
+            res, err = dspec.get_model_matrix(dff, context={}), None
+        except Exception as e:
+            res, err = None, e
+    warned = any(issubclass(x.category, DataMismatchWarning) for x in w)
+    if kind in ("cat-to-num", "num-to-text"):
+        # (asserted only when every appearance of the column has the kind that changes)
+        if still_used and ((kind == "cat-to-num" and roles == {"cat"}) or (kind == "num-to-text" and roles == {"num"})):
+            out.rejected = True
+            if err is None:
+                out.fail("kind-change-must-raise", f"d/dx of the spec of {s!r}: follow-up {col} mutated by {kind}: returned a matrix with columns {list(res.model_spec.column_names)}", **feat)
+            elif not isinstance(err, FormulaicError):
+                out.fail("kind-change-error-type", f"d/dx of the spec of {s!r} {kind}: raised {type(err).__name__}: {str(err)[:150]}", **feat)
+        return out
+    if err is not None:
+        out.fail("compatible-follow-up-rejected", f"d/dx of the spec of {s!r} {kind} on {col}: {type(err).__name__}: {str(err)[:200]}", **feat)
+        return out
+    got = list(res.model_spec.column_names)
+    if got != names:
+        out.fail("columns-reshaped", f"d/dx of the spec of {s!r} {kind} on {col}: {got} on the follow-up vs {names} on the training data", **feat)
+    unseen = False
+    for t_ in fc["terms"]:
+        for f_ in t_:
+            if f_["k"] in ("cat", "C") and f_["col"] in required and any(g_["k"] == "num" and g_.get("col") == "x" for g_ in t_):
+                lv_f = list(f_["levels"]) if f_.get("levels") else E.levels_of(tr_levels, f_["col"])
+                if any(v is not None and v not in lv_f for v in fol["cols"][f_["col"]]["values"]):
+                    unseen = True
+    if unseen and not warned and case.get("na_action", "drop") == "ignore":
+        # (under "drop" the row holding the unseen level may itself be dropped: only asserted when no row is removed)
+        out.fail("unseen-level-warning", f"d/dx of the spec of {s!r}: follow-up {col} contains an unseen level but no DataMismatchWarning was emitted", **feat)
+    return out
+
+
 def gen(max_rows=10):
     @st.composite
     def strat(draw):
@@ -301,6 +359,7 @@ def gen(max_rows=10):
             "rename": draw(st.sampled_from([None, None, "A", "B"] + ([col, col] if col in ("A", "B") else []))),
             "mat": draw(st.sampled_from(["pandas", "pandas", "narwhals"])),
             "twosided": draw(st.sampled_from([False, False, True])),
+            "derived": draw(st.sampled_from([False, False, True])),
         }
 
     return strat()
@@ -310,4 +369,4 @@ BUDGET_S = {"quick": 110, "thorough": 1500}
 
 
 def campaigns(tier, shard=0, nshards=1):
-    return [Campaign("reuse", gen(10 if tier == "quick" else 18), check_case, 1600 if tier == "quick" else 10000)]
+    return [Campaign("reuse", gen(10 if tier == "quick" else 18), check_case, 2000 if tier == "quick" else 12000)]
